@@ -14,17 +14,31 @@ from absint import St, Budget, Infeasible
 from absexec import Exec
 
 W = 'core::window::Window'
+PT = {'ty': 'u8', 'max': 254}      # PeriodType of the analysed build and the largest window length a constructor accepts (MAX - 1)
 
 
-def mk_window(ex, st, nonempty, max_size=254):
-    size = ex.mk_int(st, 'u8', 1 if nonempty else 0, max_size if nonempty else 0)
-    one = ex.mk_const_int(st, 'u8', 1)
+def set_period_type(f):
+    adt = f.adts.get(W)
+    ty = 'u8'
+    if adt:
+        for fl in adt['variants'][0]['fields']:
+            if fl['name'] == 'size' and fl['tyj'].get('t') == 'int':
+                ty = fl['tyj']['n']
+    from absint import INT_RANGE
+    PT['ty'] = ty
+    PT['max'] = INT_RANGE[ty][1] - 1
+
+
+def mk_window(ex, st, nonempty, max_size=None):
+    max_size = PT['max'] if max_size is None else max_size
+    size = ex.mk_int(st, PT['ty'], 1 if nonempty else 0, max_size if nonempty else 0)
+    one = ex.mk_const_int(st, PT['ty'], 1)
     lo, hi = ex.rng(st, size[2])
-    s1 = ex.mk_int(st, 'u8', max(lo - 1, 0), max(hi - 1, 0))
+    s1 = ex.mk_int(st, PT['ty'], max(lo - 1, 0), max(hi - 1, 0))
     ex.idef[s1[2]] = ('sat_sub', size[2], one[2])
     ex.dec_of.setdefault(size[2], []).append(s1[2])
     st.rel.add(('le', s1[2], size[2]))
-    index = ex.mk_int(st, 'u8', 0, max(hi - 1, 0))
+    index = ex.mk_int(st, PT['ty'], 0, max(hi - 1, 0))
     if nonempty:
         ex.assume_cmp(st, 'Lt', index[2], size[2], True)
     fields = {'buf': ex.alloc(st, ('buf', size[2])), 'index': ex.alloc(st, index), 'size': ex.alloc(st, size), 's_1': ex.alloc(st, s1)}
@@ -57,6 +71,7 @@ def check_invariant(ex, st, wv, size_vid, s1_vid, strict_nonempty):
 
 def a04_window_invariant(ctx):
     f = ctx.facts('default')
+    set_period_type(f)
     m = Model(f)
     r = RuleResult('A04', 'inductive representation invariant of Window and its iterators: under buf.len == size, s_1 == size-1, index < size '
                           'no public method can fail a bounds / overflow check, &mut methods re-establish the invariant, slice_index returns '
@@ -184,8 +199,8 @@ def check_iterators(ctx, f, r, methods):
             wv, size_vid, index_vid, s1_vid = mk_window(ex, st, nonempty)
             wc = ex.alloc(st, wv)
             # J: it.index < size, it.size <= size (it.size >= 0)
-            iidx = ex.mk_int(st, 'u8', 0, 253 if nonempty else 0)
-            isize = ex.mk_int(st, 'u8', 0, 254 if nonempty else 0)
+            iidx = ex.mk_int(st, PT['ty'], 0, PT['max'] - 1 if nonempty else 0)
+            isize = ex.mk_int(st, PT['ty'], 0, PT['max'] if nonempty else 0)
             try:
                 if nonempty:
                     ex.assume_cmp(st, 'Lt', iidx[2], size_vid, True)
@@ -251,6 +266,7 @@ def a06_index_methods(ctx):
     """A06: inductive invariant of HighestIndex / LowestIndex: I(m) = I(m.window) and m.index < m.window.size.
     Base: new() establishes it.  Step: under I and a finite input, next() reaches no panic / overflow, re-establishes I and returns an age < size."""
     f = ctx.facts('default')
+    set_period_type(f)
     r = RuleResult('A06', 'HighestIndex / LowestIndex: the age they keep and return is always < window length (inductive: new() establishes it, next() '
                           'preserves it under the Window invariant and reaches no overflow or bounds check on the way)')
     FM = 1.7976931348623157e308
@@ -272,7 +288,7 @@ def a06_index_methods(ctx):
         ex.split_bool_casts = ('core::window::',)
         st = St()
         wv, size_vid, widx, s1_vid = mk_window(ex, st, True)
-        age = ex.mk_int(st, 'u8', 0, 253)
+        age = ex.mk_int(st, PT['ty'], 0, PT['max'] - 1)
         ex.assume_cmp(st, 'Lt', age[2], size_vid, True)
         selfv = ('adt', ty, frozenset([short]), {short: {'window': ex.alloc(st, wv), 'index': ex.alloc(st, age), 'value': ex.alloc(st, ('float', -FM, FM, False))}})
         sc = ex.alloc(st, selfv)
@@ -341,7 +357,7 @@ def a06_index_methods(ctx):
                     r.violate(key + '|empty-window', '%s::new can build an instance over an empty window' % short, b.file, b.line)
                 elif a2[0] != 'int' or not ex.prove_lt(s2, a2[2], size[2]):
                     r.violate(key + '|age', '%s::new does not establish age < window length' % short, b.file, b.line)
-                if size[0] == 'int' and ex.rng(s2, size[2])[1] > 254:
+                if size[0] == 'int' and ex.rng(s2, size[2])[1] > PT['max']:
                     r.violate(key + '|length-at-capacity', '%s::new accepts a length at the capacity of PeriodType: age + 1 can overflow' % short, b.file, b.line)
         if not ok_seen:
             r.violate(key + '|no-ok', 'new() has no Ok outcome in the abstract semantics', b.file, b.line)
